@@ -40,11 +40,55 @@ def run_driver(ctx, exe, model, seed, n_unit, n_prog, tag):
     return dict(cases=inp.splitlines(), impl=impl, model=mout.splitlines(), direct=direct, stats=stats)
 
 
+# model-independent predicates, most telling first (engine-level statements of the property text)
+KIND_ORDER = [
+    "delegated-account-nonce-advanced",
+    "top-level-delegated-create-not-halted",
+    "engine-differs-from-stock-while-guard-inert",
+    "guarded-engine-differs-from-stock-without-delegated-create",
+    "guarded-engine-differs-from-reference-guard",
+    "parallel-engine-differs",
+    "static-gas",
+    "guarded-table-differs-from-reference-guard",
+]
+
+
 def smallest(direct):
-    return min(direct, key=lambda d: len(d.get("replay", "")))
+    def key(d):
+        k = d.get("kind")
+        return (KIND_ORDER.index(k) if k in KIND_ORDER else len(KIND_ORDER), len(d.get("replay", "")))
+    return min(direct, key=key)
+
+
+def replay(ctx, exe):
+    """Re-run the block recorded in a replay file (seed + block index) on the current tree."""
+    r = json.load(open(ctx.replay))
+    w = r.get("witness") or {}
+    toks = (w.get("replay") or "").split()
+    if len(toks) < 6 or toks[0] != "guard":
+        core.log("replay file carries no block to re-run:", r.get("broken"))
+        return 2
+    seed, idx = toks[1], toks[5]
+    work = os.path.join(ctx.work, "replay")
+    rc, out = core.sh([exe, seed, "0", str(int(idx) + 1), work, idx], timeout=600)
+    core.log(out[-6000:])
+    direct = [json.loads(l) for l in open(os.path.join(work, "guard.direct")).read().splitlines() if l.strip()]
+    # a replay does not rewrite the evidence file of the last full run
+    if direct:
+        w = smallest(direct)
+        core.log("replayed block fails: %s: %s" % (w["kind"], w["detail"][:2000]))
+        core.log("VIOLATION property=%s replay=%s" % (PID, ctx.replay))
+        return 1
+    core.log("OK property=%s replayed block passes on this tree" % PID)
+    return 0
 
 
 def run(ctx):
+    if ctx.replay:
+        ok, out, bins = core.cargo_build(BINS)
+        if not ok:
+            raise RuntimeError("cargo build failed:\n" + out[-3000:])
+        return replay(ctx, bins["guard"])
     proof = core.proof_stage(PID, extra_targets=["Guard/Extract.vo"], tier=ctx.tier)
     for p in proof["problems"]:
         core.log("proof-stage problem:", p)
